@@ -324,34 +324,40 @@ Section Machine.
   (* advanceState: step until the state repeats.  [unres] = number of
      unresolved contracts in the log (StateWaitingFullResolution consults it;
      no resolver makes progress inside one advanceState call). *)
+  Definition adv_step (st : astate) (unres : nat) (height : N) (t : trigger)
+             (conf : option (ckey * csets)) (active : csets)
+             (logres : option resolutions) : astate * eff :=
+    match st with
+    | SWaitingFullResolution =>
+      if Nat.eqb unres 0 then (SFullyResolved, no_eff) else (SWaitingFullResolution, no_eff)
+    | _ => state_step st height t conf active logres
+    end.
+
+  Definition same_state (a b : astate) : bool :=
+    match a, b with
+    | SDefault, SDefault | SBroadcastCommit, SBroadcastCommit
+    | SCommitmentBroadcasted, SCommitmentBroadcasted
+    | SContractClosed, SContractClosed
+    | SWaitingFullResolution, SWaitingFullResolution
+    | SFullyResolved, SFullyResolved | SError, SError => true
+    | _, _ => false
+    end.
+
+  Definition is_error (a : astate) : bool := match a with SError => true | _ => false end.
+
   Fixpoint advance (fuel : nat) (st : astate) (unres : nat) (height : N) (t : trigger)
            (conf : option (ckey * csets)) (active : csets)
            (logres : option resolutions) (acc : eff) : option (astate * nat * eff) :=
     match fuel with
     | O => None
     | S f =>
-      let '(nx, ef) :=
-        match st with
-        | SWaitingFullResolution =>
-          if Nat.eqb unres 0 then (SFullyResolved, no_eff) else (SWaitingFullResolution, no_eff)
-        | _ => state_step st height t conf active logres
-        end in
+      let nx := fst (adv_step st unres height t conf active logres) in
+      let ef := snd (adv_step st unres height t conf active logres) in
       let unres' := (unres + length (filter persisted (f_resolvers ef)))%nat in
       let acc' := eff_app acc ef in
-      match nx, st with
-      | SError, _ => Some (st, unres', acc')          (* error: state not committed *)
-      | _, _ =>
-        if match nx, st with
-           | SDefault, SDefault | SBroadcastCommit, SBroadcastCommit
-           | SCommitmentBroadcasted, SCommitmentBroadcasted
-           | SContractClosed, SContractClosed
-           | SWaitingFullResolution, SWaitingFullResolution
-           | SFullyResolved, SFullyResolved => true
-           | _, _ => false
-           end
-        then Some (nx, unres', acc')
-        else advance f nx unres' height t conf active logres acc'
-      end
+      if is_error nx then Some (st, unres', acc')    (* error: state not committed *)
+      else if same_state nx st then Some (nx, unres', acc')
+      else advance f nx unres' height t conf active logres acc'
     end.
 
   Definition fuel0 : nat := 8.
